@@ -189,6 +189,15 @@ def cli_case(case):
         (proj / "a.py").write_text("x = 1\n")
         out = root / "r.codetf"
         argv = [str(proj), "--output", str(out), "--dry-run"] + case["args"]
+        tool = case.get("tool", "none")
+        if tool != "none":
+            import json as _json
+            flag, doc = {"sonar-issues": ("--sonar-issues-json", {"issues": []}), "sonar-hotspots": ("--sonar-hotspots-json", {"hotspots": []}),
+                         "sarif": ("--sarif", {"version": "2.1.0", "runs": [{"tool": {"driver": {"name": "Semgrep OSS"}}, "results": []}]}),
+                         "defectdojo": ("--defectdojo-findings-json", {"results": []})}[tool]
+            rf = root / "tool-results.json"
+            rf.write_text(_json.dumps(doc))
+            argv += [flag, str(rf)]
         import os
         os.environ["PATH"] = str(common.VERIF / "harness" / "bin") + ":" + os.environ["PATH"]
         res = impl.run_cli(argv)
@@ -228,15 +237,22 @@ def search(ctx):
             excl = gen_patterns(rng, ids, rng.randint(1, 3))
             cases.append({"args": ["--codemod-exclude", ",".join(excl)], "incl": [], "excl": list(dict.fromkeys(excl))})
     cases = cases[:fixed] + [c for c in cases[fixed:] if not any("," in p or p == "" for p in c["incl"] + c["excl"])]
+    # which kind of tool result file is supplied decides the eligible set: Sonar *issue* files and SARIF files make it the
+    # tool-specific codemods; a hotspots file or DefectDojo findings alone do not
+    for i, c in enumerate(cases):
+        c["tool"] = "none" if i < fixed - 1 else rng.choice(["none", "sonar-issues", "sonar-hotspots", "sarif", "defectdojo"])
+    for t in ["sonar-issues", "sonar-hotspots", "sarif", "defectdojo"]:
+        cases.append({"args": [], "incl": [], "excl": [], "tool": t})
+        cases.append({"args": ["--codemod-exclude", "pixee:python/use-generator"], "incl": [], "excl": ["pixee:python/use-generator"], "tool": t})
     res = impl.pool_map(cli_case, cases)
     for c, r in zip(cases, res):
         if r[0] != "ok":
             ctx.broke("c17 cli harness", r[1])
             continue
         r = r[1]
-        exp = ref_select(pairs, dflt, c["incl"], c["excl"], False)
-        ctx.search_case("cli", c["args"], bool(exp))
+        exp = ref_select(pairs, dflt, c["incl"], c["excl"], c.get("tool") in ("sonar-issues", "sarif"))
+        ctx.search_case("cli", c["args"] + [c.get("tool", "none")], bool(exp))
         if r["res"] != ["exit", 0] or r["ids"] != exp:
             kind = "cli-crash" if r["res"] != ["exit", 0] else ("cli-duplicate" if r["ids"] and len(set(r["ids"])) != len(r["ids"]) else "cli-wrong-selection")
-            ctx.fail({"kind": kind}, f"CLI {c['args']}: result {r['res']}, executed {str(r['ids'])[:200]}, reference {exp[:6]}",
-                     {"args": c["args"], "impl": r, "reference": exp})
+            ctx.fail({"kind": kind}, f"CLI {c['args']} (tool results: {c.get('tool', 'none')}): result {r['res']}, executed {str(r['ids'])[:200]}, reference {exp[:6]}",
+                     {"args": c["args"], "tool": c.get("tool", "none"), "impl": r, "reference": exp})
